@@ -14,6 +14,10 @@ def W8  : Nat := 256
 def W16 : Nat := 65536
 def W32 : Nat := 4294967296
 def W64 : Nat := 18446744073709551616
+/- NOTE for model code: never write `x + W64` with symbolic `x` (always `W64 + x`): `Nat.add` recurses on its
+   second argument, and any definitional unfolding (equation lemmas, `unfold`, `rfl`) then peels the literal
+   into 2^64 successors and never returns. -/
+
 
 @[inline] def u8  (x : Nat) : Nat := x % W8
 @[inline] def u16 (x : Nat) : Nat := x % W16
